@@ -406,18 +406,11 @@ def _object_worker(args):
     return acc.result()
 
 
-def _cert_option_worker(args):
-    """Certificates with every critical option and extension alone and in ordered pairs, unknown options,
-    principals 0-3, validity {epoch, instant, forever}."""
-    qn, = args
-    acc = core.Acc()
+def cert_variants(seed):
+    """[dict of changed fields] - certificates with every critical option and extension alone and in ordered pairs,
+    unknown options, principals 0-3, validity {epoch, instant, forever}, serial boundaries."""
     import datetime
     from cryptoparser.ssh import key as sk
-    cls = classes.class_by_name(qn)
-    seeds = objects.seed_objects().get(cls, [])
-    if not seeds:
-        return acc.result()
-    seed = seeds[0]
     crit = [sk.SshCertExtensionForceCommand('ls -l'), sk.SshCertExtensionSourceAddress(['10.0.0.0/8', '::1/128']),
             sk.SshCertExtensionUnparsed('verified-user@verif.example', b'\x00\x00\x00\x01x')]
     exts = [sk.SshCertExtensionNoPrecenseRequired(), sk.SshCertExtensionPermitX11Forwarding(),
@@ -427,14 +420,16 @@ def _cert_option_worker(args):
     utc = datetime.timezone.utc
 
     def lists(pool):
-        out = [[]] + [[x] for x in pool] + [[x, y] for x in pool for y in pool if x is not y]
-        return out
+        return [[]] + [[x] for x in pool] + [[x, y] for x in pool for y in pool if x is not y]
     variants = []
     if hasattr(seed, 'serial'):
         for c in lists(crit):
             variants.append({'critical_options': c})
         for e in lists(exts):
             variants.append({'extensions': e})
+        variants.append({'critical_options': [crit[2]], 'extensions': [exts[4]]})
+        variants.append({'critical_options': [crit[2]], 'extensions': []})
+        variants.append({'critical_options': [], 'extensions': [exts[0], exts[6]]})
     else:
         for c in lists(crit + exts[:2]):
             variants.append({'constraints': c})
@@ -447,7 +442,19 @@ def _cert_option_worker(args):
     for sn in (0, 1, 2 ** 32, 2 ** 64 - 1):
         if hasattr(seed, 'serial'):
             variants.append({'serial': sn})
+    return variants
+
+
+def _cert_option_worker(args):
+    qn, = args
+    acc = core.Acc()
     import attr
+    cls = classes.class_by_name(qn)
+    seeds = objects.seed_objects().get(cls, [])
+    if not seeds:
+        return acc.result()
+    seed = seeds[0]
+    variants = cert_variants(seed)
     for i, ch in enumerate(variants):
         try:
             o = attr.evolve(seed, **ch)
